@@ -128,6 +128,15 @@ theorem whole_aggregate_limit (env : Env N) (data : Row N) (t : String) (rows : 
       subst this; simp
   simp [hw, bind, Except.bind, pure, Except.pure]
 
+/-- A HAVING clause on a statement WITHOUT GROUP BY is read and applies nothing: the statement returns what it returns
+    without it — one output row per row that passed WHERE (C02), whatever the HAVING condition says.  (This is the
+    engine's behaviour, mirrored by the model; a change that starts filtering by it breaks C02's row count.) -/
+theorem having_without_group_by_is_inert (env : Env N) (data : Row N) (sc : Scope) (ctes : List (Cte N)) (distinct : Bool)
+    (sel : List (SelItem N)) (frm : From N) (wh hv : Expr N) (orderBy : List (List String × Bool)) (limit offset : Option Nat) :
+    execQuery env data sc (.select ctes distinct sel frm wh [] hv orderBy limit offset)
+      = execQuery env data sc (.select ctes distinct sel frm wh [] (.bool true) orderBy limit offset) := by
+  simp only [execQuery, prepare, List.isEmpty_nil, Bool.not_true, Bool.not_false, if_true]
+
 end Genql.Pipeline
 
 /-! ### a concrete instance (a test of the statement's shape, not part of the proof) -/
